@@ -183,7 +183,7 @@ def _evaluate(case, td):
     return Outcome(nontrivial=len(blob) > 1, classes=tuple(classes), key=None, info=dict(kind=case["kind"], size=len(blob), prefixes=len(blob), rejected_runs=rejected, accepted_identical_runs=accepted), weight=len(blob) * 5)
 
 
-def _run_with_write_fault(cfg, td, fault_after=None):
+def _run_with_write_fault(cfg, td, fault_after=None, fault_open=None):
     """phyclone.run.run in-process (2 chains) with every gzip write counted; when `fault_after` is given the write that
     crosses that many payload bytes raises ENOSPC (disk full), as a crash point inside the trace write at the end of a run.
     Returns (bytes written, exception or None)."""
@@ -206,17 +206,34 @@ def _run_with_write_fault(cfg, td, fault_after=None):
             raise OSError(errno.ENOSPC, "No space left on device (injected)")
         return real_write(self, data)
 
+    real_init = gzip.GzipFile.__init__
+    opens = [0]
+
+    def init(self, filename=None, mode=None, *a, **k):
+        if mode and mode[0] in "wax":
+            opens[0] += 1
+            if fault_open is not None and opens[0] >= fault_open:
+                # the process dies after one complete write and before the next one (a crash point BETWEEN writes)
+                raise OSError(errno.EIO, "injected: killed before write number %d" % opens[0])
+        return real_init(self, filename, mode, *a, **k)
+
     gzip.GzipFile.write = write
+    gzip.GzipFile.__init__ = init
+    cf = None
+    if cfg.get("clusters"):
+        cf = os.path.join(td, "clusters.tsv")
+        po.write_clusters(cfg["clusters"], cf)
     exc = None
     try:
         with contextlib.redirect_stdout(io.StringIO()):
-            prun.run(inp, out, burnin=1, num_iters=cfg["iters"], num_particles=3, grid_size=11, seed=cfg["seed"], num_chains=2, proposal=cfg["proposal"], print_freq=1000, density="binomial", outlier_prob=cfg["outlier_prob"])
+            prun.run(inp, out, cluster_file=cf, burnin=1, num_iters=cfg["iters"], num_particles=3, grid_size=11, seed=cfg["seed"], num_chains=2, proposal=cfg["proposal"], print_freq=1000, density="binomial", outlier_prob=cfg["outlier_prob"])
     except BaseException as e:
         if isinstance(e, KeyboardInterrupt):
             raise
         exc = e
     finally:
         gzip.GzipFile.write = real_write
+        gzip.GzipFile.__init__ = real_init
     return counter[0], exc, out
 
 
@@ -236,6 +253,28 @@ def _fault_case(cfg):
         o1 = os.path.join(d1, "out")
         os.makedirs(o1)
         ref = _run(full, o1)
+        # structural crash points of the REAL multi-chain trace: every offset at which a gzip member could start (the
+        # two magic bytes), i.e. where a writer that emitted one compressed block per chain would have a clean boundary
+        with open(full, "rb") as fh:
+            blob = fh.read()
+        cuts = [i for i in range(1, len(blob) - 1) if blob[i : i + 2] == b"\x1f\x8b"][:40]
+        for c in cuts:
+            dc = os.path.join(td, "cut_%d" % c)
+            os.makedirs(os.path.join(dc, "out"))
+            fcut = os.path.join(dc, "t.pkl.gz")
+            with open(fcut, "wb") as fh:
+                fh.write(blob[:c])
+            for name, r in _run(fcut, os.path.join(dc, "out")).items():
+                if r[0] == "ok" and (ref[name][0] != "ok" or r[1] != ref[name][1] or c < len(blob) - 64):
+                    return dict(ok=False, command=name, size=c, full=len(blob), what="cut")
+        # a crash between two writes (only reachable if the writer opens the output more than once)
+        d3 = os.path.join(td, "between")
+        os.makedirs(os.path.join(d3, "out"))
+        _, exc3, part3 = _run_with_write_fault(cfg, d3, fault_open=2)
+        if exc3 is not None and os.path.exists(part3):
+            for name, r in _run(part3, os.path.join(d3, "out")).items():
+                if r[0] == "ok" and (ref[name][0] != "ok" or r[1] != ref[name][1]):
+                    return dict(ok=False, command=name, size=os.path.getsize(part3), full=len(blob), what="between")
         written, exc, part = _run_with_write_fault(cfg, d2, fault_after=int(total * cfg["frac"]))
         if exc is None:
             return dict(ok=True, note="fault not reached (%d of %d bytes)" % (written, total))
@@ -262,11 +301,19 @@ def extra(ctx, stats):
                 alt = 10 + (sd >> (3 * m + smp)) % 60
                 rows.append(dict(mutation_id="m%d" % m, sample_id="s%d" % smp, ref_counts=100 - alt, alt_counts=alt, major_cn=1 + (m % 2), minor_cn=1, normal_cn=2))
         cfg = dict(rows=rows, iters=6 + j, seed=sd % 100000, proposal=["semi-adapted", "fully-adapted", "bootstrap"][j % 3], outlier_prob=[0.0, 0.1][j % 2], frac=[0.9, 0.6, 0.97, 0.75][j % 4])
+        if j % 2 == 0:
+            cfg["clusters"] = {"m0": 0, "m1": 0, "m2": 1, "m3": 2}
         r = _fault_case(cfg)
         stats.evaluations += 1
         stats.count("kind:write-fault-in-real-multichain-run")
         stats.nontrivial_keys.add(case_hash(cfg))
         stats.notes.append("write fault case %d: %s" % (j, r.get("note") or r))
+        if not r["ok"] and r.get("what") == "between":
+            stats.violations.append(dict(component="partial-trace-accepted/between-writes/" + r["command"], message="a run killed before its second write to the output path left a file (%d bytes; complete trace %d) that %s summarises successfully with results different from the complete run's" % (r["size"], r["full"], r["command"]), case=cfg, tags=dict(command=r["command"])))
+            continue
+        if not r["ok"] and r.get("what") == "cut":
+            stats.violations.append(dict(component="partial-trace-accepted/block-boundary/" + r["command"], message="the trace of a real multi-chain run cut at byte %d of %d (an offset where a compressed block could start) is summarised successfully by %s" % (r["size"], r["full"], r["command"]), case=cfg, tags=dict(command=r["command"])))
+            continue
         if not r["ok"]:
             stats.violations.append(dict(component="partial-trace-accepted/after-write-fault/" + r["command"], message="a multi-chain run whose final trace write failed with ENOSPC left a file (%d bytes; complete trace %d) that %s summarises successfully with results different from the complete run's" % (r["size"], r["full"], r["command"]), tags=dict(command=r["command"], kind="write-fault"), case=dict(kind="write-fault", cfg=cfg), detail={}))
     stats.exhaustive = True
